@@ -27,6 +27,7 @@ EXPLANATION = (
     "level question and is not decided."
     ' (R0) trim_response must cut by constants (a bound computed from unchecked response bytes is a violation); (R2 sensor-read) path rule: nothing touches the buffer between seek(self.offset) and read_value; (R3 cursor) only ProtocolResponse.seek / read move the payload cursor.'
     ' (R5, shared with C20.R1) no code assigns an attribute of a shared sensor definition from outside.'
+    ' (R6, shared with C16.R1) the single reads (_read_sensor / _read_setting) request ceil(size_/2) registers at the sensor and decode from the first byte of the answer.'
 )
 
 GROUP_BASES = ("EcoModeV1", "Schedule")
@@ -88,6 +89,9 @@ def check(ctx: Ctx, rep: Report):
             _n5 += 1
             rep.obligations.append(type(o)("C12.R5", o.key, o.where, o.what, o.status, o.detail))
     rep.ok("C12.R5", "row-attributes:scan", "goodwe/", "no assignment to an attribute of a shared sensor definition from the inverter classes (%d found)" % _n5)
+    rep.rule("C12.R6", "a sensor / setting read on its own is decoded from the first byte of an answer to a read of exactly its registers (shared with C16.R1)", 3)
+    from .c16 import single_read_form
+    single_read_form(ctx, rep, "C12.R6")
     rep.rule("C12.R4", "the byte count announced by the type's docstring equals the bytes its decoder consumes", 25)
     prog = ctx.prog
     tabs, dec = tables_ctx(ctx), decoders_ctx(ctx)
